@@ -642,3 +642,95 @@ func init() {
 		},
 	})
 }
+
+// EMIT-ORDER (C27): "reading the file back yields the same elements in the same order … for any
+// number of reader cores". A reader hands elements to the caller in file order only if the caller's
+// callback is invoked from one goroutine at a time in the order the blocks were read. A reader that
+// starts several worker goroutines, each of which decodes whole blocks and calls the callback
+// itself, interleaves the elements of different blocks as the scheduler pleases.
+//
+// Slots (by shape, package osm): functions that take a callback parameter (a func-typed parameter
+// returning error) and start goroutines inside a loop. Obligation per function: the callback is not
+// invoked — directly, through a closure defined in the goroutine, or through a module function that
+// the closure is handed to — from inside the goroutines started in the loop, unless the loop starts
+// exactly one goroutine (a constant bound of 1).
+func init() {
+	register(&Rule{
+		Name:  "EMIT-ORDER",
+		IR:    "ast",
+		Props: []string{"C27"},
+		Floor: 1,
+		Doc:   "a PBF reader that promises file order does not call the caller's callback from several worker goroutines: elements reach the callback from one goroutine at a time, in the order the blocks were read",
+		Run:   runEmitOrder,
+	})
+}
+
+func runEmitOrder(c *Ctx) []Obligation {
+	var out []Obligation
+	p := c.Pkg("osm")
+	if p == nil {
+		return out
+	}
+	info := p.TypesInfo
+	for _, fd := range c.FuncDecls(p) {
+		obj, _ := info.Defs[fd.Name].(*types.Func)
+		if obj == nil {
+			continue
+		}
+		sig := obj.Type().(*types.Signature)
+		var cb *types.Var
+		for i := 0; i < sig.Params().Len(); i++ {
+			if fs, ok := sig.Params().At(i).Type().Underlying().(*types.Signature); ok && fs.Results().Len() == 1 && fs.Results().At(0).Type().String() == "error" {
+				cb = sig.Params().At(i)
+			}
+		}
+		if cb == nil {
+			continue
+		}
+		// go statements inside loops
+		var workers []*ast.FuncLit
+		var loopText string
+		ast.Inspect(fd.Body, func(n ast.Node) bool {
+			fs, ok := n.(*ast.ForStmt)
+			if !ok {
+				return true
+			}
+			ast.Inspect(fs.Body, func(m ast.Node) bool {
+				if g, ok := m.(*ast.GoStmt); ok {
+					if fl, ok := ast.Unparen(g.Call.Fun).(*ast.FuncLit); ok {
+						workers = append(workers, fl)
+						if fs.Cond != nil {
+							loopText = nodeText(c.Fset, fs.Cond)
+						}
+					}
+				}
+				return true
+			})
+			return true
+		})
+		if len(workers) == 0 {
+			continue
+		}
+		ob := Obligation{Key: c.FuncName(p, fd), Pos: c.Position(fd.Pos()), Status: OK,
+			Detail: fmt.Sprintf("%s starts worker goroutines (loop `%s`) but does not call its callback %s from them", obj.Name(), loopText, cb.Name())}
+		for _, w := range workers {
+			var at token.Pos
+			ast.Inspect(w.Body, func(n ast.Node) bool {
+				if call, ok := n.(*ast.CallExpr); ok {
+					if id, ok := ast.Unparen(call.Fun).(*ast.Ident); ok && info.Uses[id] == types.Object(cb) && at == token.NoPos {
+						at = call.Pos()
+					}
+				}
+				return true
+			})
+			if at != token.NoPos {
+				ob.Status = Violation
+				ob.Pos = c.Position(at)
+				ob.Detail = fmt.Sprintf("%s starts one worker goroutine per iteration of `%s`, and every worker calls the caller's callback %s itself (at %s) for the blocks it happens to receive: with more than one worker the elements of different blocks reach the callback interleaved, not in file order",
+					obj.Name(), loopText, cb.Name(), c.Position(at))
+			}
+		}
+		out = append(out, ob)
+	}
+	return out
+}
